@@ -131,6 +131,18 @@ def make_types(rng):
                                                           S("mostSignificantByteFirst")]], 32, utf16))
     add(PT("STR16LE_T", ["pt", S("STR16LE_T"), "plain", ["str", S("UTF-16LE"), "32", "-", "-", "1", "-", "-", "-", "-"]], 32,
            lambda rng, c=None: utf16(rng, c, be=False)))
+    # string-encoded enumerations: the keys are the field's bytes in the codec the field is decoded with
+    for tn, encname, bo, codec in [("ENUMS8_T", "UTF-8", "-", "utf-8"), ("ENUMS16BE_T", "UTF-16BE", "-", "utf-16-be"),
+                                   ("ENUMS16M_T", "UTF-16", S(MSB), "utf-16-be"), ("ENUMS16L_T", "UTF-16", S(LSB), "utf-16-le"),
+                                   ("ENUMS32L_T", "UTF-32LE", "-", "utf-32-le")]:
+        w = 8 * len("ON".encode(codec))
+        ks = [("ON", "on"), ("NO", "off"), ("??", "unknown")]
+
+        def ens(rng, c=None, codec=codec, ks=ks):
+            txt = rng.choice([k for k, _ in ks]) if rng.random() < 0.95 else "ZZ"
+            return "".join(f"{x:08b}" for x in txt.encode(codec))
+        add(PT(tn, ["pt", S(tn), ["enum"] + [["x" + k.encode(codec).hex(), S(lab)] for k, lab in ks],
+                    ["str", S(encname), str(w), "-", "-", "1", "-", "-", "-", bo]], w, ens))
     add(PT("BIN24_T", ["pt", S("BIN24_T"), "plain", ["bin", "24", "-", "1", "-", "-"]], 24, lambda rng, c=None: rbits(rng, 24)))
     add(PT("BIN5_T", ["pt", S("BIN5_T"), "plain", ["bin", "5", "-", "1", "-", "-"]], 5, lambda rng, c=None: rbits(rng, 5)))
     return ts
